@@ -65,6 +65,11 @@ CHECKS = {
    technique="exhaustive corpus enumeration with buffer-clobber histories (complement, zero, reuse) and snapshot comparison; lazyproto clause decided by the C14/C15 explorations",
    text="Every corpus type x runtime x value tree (+ unknown-field variant): generated Unmarshal (default options) from a private buffer, snapshot of the decoded tree, then the buffer is overwritten with its complement, zeroed, and recycled for another decode; the tree must stay equal to the snapshot. The lazyproto half (every accessor in safe mode after the caller clobbers its buffer; values re-verified after every later operation and under all interleavings) is exercised in C14 and C15.",
    note="Unsafe/fast mode is opt-in and not checked. Alias detection is by content clobbering (complement pattern changes every byte)."),
+
+ "C17": dict(level="exploration", design="DESIGN.md §7 C17",
+   technique="exhaustive enumeration of unset-required-field subsets x nesting positions; differential oracle against the reference runtime's initialisation verdict",
+   text="Every proto2 corpus type with required fields: every subset of unset required fields (exhaustive up to 6 fields, structured subsets for the 17-field message), with/without other content, deficient and complete nested messages in singular / list / map-value / oneof positions, empty message and empty input, for every runtime. Marshal, MarshalTo and csproto.Marshal must fail iff proto.CheckInitialized of the tree fails; generated Unmarshal of the reference's partial encoding must fail iff the reference's strict Unmarshal does.",
+   note="Reference = google.golang.org/protobuf dynamicpb over independently built descriptors. Extension positions with required fields are not enumerated."),
 }
 
 NOT_YET = {}
